@@ -417,6 +417,20 @@ def r5(ctx):
         if ok:
             ib = incs[0][0]
             ok = sh.bb in body.reachable(ib) and backslice(body, [sp[0].args[0]]).locals & backslice(body, [sh.args[0]]).locals != set()
+    # the printing loop leaves with `?` on an output error and drops the receiver: the producer of the commands must survive that (its send() then
+    # fails), so that the error - not a panic of the producer, re-raised by the scope - is what the run ends with
+    prod = [lib.body(cp) for cp in lib.closures_of(ls.path) if lib.body(cp).calls(r'Sender<.*>::send$|Sender::<T>::send$')]
+    bad = []
+    for x in prod:
+        for c in x.calls(r'Sender<.*>::send$|Sender::<T>::send$'):
+            uw = [k for k in x.calls(r'Result(::)?<.*>::(unwrap|expect)$') if op_local(k.args[0]) in (forward_locals(x, c.dest[0]) | {c.dest[0]})]
+            if uw:
+                bad.append(uw[0])
+    if prod:
+        ctx.check(not bad, rule, ls.path + '|producer-survives-output-error', (bad[0].where() if bad else prod[0].where()), 'the thread that generates the commands does not panic when the printing side has stopped on an output error',
+                  'the producer of the commands unwraps send(): when writing the script fails (`fclones remove --dry-run <rep | head -1`, -o on a full disk) the printing loop returns the error and drops the '
+                  'receiver, every pending send() fails, the producer panics and the scope re-raises it - the run ends with a dozen panic messages and exit code 101 (an abort with a core dump in '
+                  'release builds) instead of "Output error: Broken pipe"')
     ctx.check(bool(ok), rule, body.path + '|dry-run-summary', sh.where(), 'dry run: +1 and +space_to_reclaim() for every printed command', 'the dry-run summary does not count one and space_to_reclaim() per printed command')
     from . import c05
     before = len(ctx.obligations)
